@@ -220,7 +220,7 @@ N_IDS = 1240
 def _c15(tier, seed):
     q = tier == "quick"
     W = 3 if q else 5
-    runs = ["H_C15_container(%d)" % (4 if q else 6), "H_C15_gzip(2,1)", "H_C15_gzip(2,0)"]
+    runs = ["H_C15_container(%d)" % (4 if q else 6), "H_C15_gzip(2,1)", "H_C15_gzip(2,0)", "H_C15_gzip(2,2)"]
     idxs = _sample(seed + 3, 1227, 70) if q else range(N_IDS)
     for k in idxs:
         runs.append("H_C15_unknown(%d,%d,0)" % (k, W))
